@@ -101,6 +101,26 @@ def _end_name(kind):
     return {2: 'UE', 3: 'UB', 5: 'UQ'}[kind]
 
 
+
+def _advance_to_next_modelled_line(ctl, trace, i, th):
+    """after step i of thread `th`: pass its lines that carry no modelled command (try:, except X:, pass, loop headers ...) until it sits at the
+    line of its next modelled step, or - if the schedule has no further step for it - until it has finished.  Such lines have no shared effect,
+    so doing this eagerly only makes the real thread state equal to the model state right after the step (a thread that is finished in the model
+    is finished in reality before any later step of another thread is replayed)."""
+    target = 'done'
+    for st in trace[i + 1:]:
+        if st['actor'] == th and not st.get('local'):
+            target = st['line']
+            break
+    guard = 0
+    where = ctl.wait_gated(th, 0.2)
+    while where not in (target, 'done', None) and guard < 60:
+        ctl.release(th)
+        guard += 1
+        ctl.settle(th)
+        where = ctl.wait_gated(th, 0.2)
+
+
 def replay_stp(model, step_timeout=1.0):
     """model: dict(params=..., trace=[dict(actor, line, label)]) from systems.encode.decode"""
     import lazy_dataset.parallel_utils as pu
@@ -192,7 +212,7 @@ def replay_stp(model, step_timeout=1.0):
         m.start()
         mismatches = []
         followed = 0
-        for step in model['trace']:
+        for step_i, step in enumerate(model['trace']):
             th, line = step['actor'], step['line']
             if step.get('local'):
                 followed += 1      # sub-step on thread-local temporaries: no line event of its own
@@ -211,6 +231,7 @@ def replay_stp(model, step_timeout=1.0):
             ctl.release(th)
             followed += 1
             ctl.settle(th)
+            _advance_to_next_modelled_line(ctl, model['trace'], step_i, th)
         # drain: let everything finish on its own; what cannot finish is blocked
         deadline = time.time() + 3.0
         while time.time() < deadline:
@@ -425,7 +446,7 @@ def replay_lpm_thread(model, step_timeout=1.0):
             nonlocal pending_at_exit
             if pending_at_exit is None and any(e[0] == 'closing' for e in events) and ctl.at.get('$main') in exit_lines:
                 pending_at_exit = [k for k, f in enumerate(futures) if not f.done() and not f.running()]
-        for step in model['trace']:
+        for step_i, step in enumerate(model['trace']):
             probe_exit()
             if step.get('local'):
                 followed += 1
@@ -454,6 +475,8 @@ def replay_lpm_thread(model, step_timeout=1.0):
             ctl.release(th)
             followed += 1
             ctl.settle(th)
+            if th == '$main':
+                _advance_to_next_modelled_line(ctl, [st for st in model['trace']], step_i, th)
         probe_exit()
         mark = len(events)          # everything after this point happens after the end of the model's schedule
         # drain
